@@ -303,8 +303,10 @@ example : IsRoot C01.exRoot ∧ HashAvoids C01.exCfg C01.exRoot.prev ∧
     C08_walk_reachable C01.exCfg C01.exRoot (by decide) C01.exAvoids C01.exHist 2 (by decide) (by decide)⟩
 
 example : DistinctRoots (run C01.exCfg [C01.exRoot] (C01.exHist ++ [C01.exSrc 4 6, C01.exSrc 7 7])) ∧
-    (∃ ext, ext.length = 2 ∧ lcAsc (run C01.exCfg [C01.exRoot] (C01.exHist ++ [C01.exSrc 4 6, C01.exSrc 7 7])) =
-      lcAsc (run C01.exCfg [C01.exRoot] C01.exHist) ++ ext) ∧
+    lcAsc (run C01.exCfg [C01.exRoot] (C01.exHist ++ [C01.exSrc 4 6, C01.exSrc 7 7])) =
+      lcAsc (run C01.exCfg [C01.exRoot] C01.exHist) ++
+        (lcAsc (run C01.exCfg [C01.exRoot] (C01.exHist ++ [C01.exSrc 4 6, C01.exSrc 7 7]))).drop 3 ∧
+    ((lcAsc (run C01.exCfg [C01.exRoot] (C01.exHist ++ [C01.exSrc 4 6, C01.exSrc 7 7]))).drop 3).map (·.hash) = [7, 8] ∧
     1 < (lcAsc (run C01.exCfg [C01.exRoot] C01.exHist)).length := by decide
 
 end Reachable
